@@ -361,10 +361,10 @@ def what_differs(ev, prop):
         if not ev["iok"]:
             return "succeeds but fails alone"
         return "output differs" if ev["dig"] != ev["idig"] else "summary differs"
-    if prop == "HashSeedIndependent":
+    if prop == "HashSeedIndependent":       # the seed is not part of the signature: one class per history
         if ev["ok"] != ev["zok"] or ev["exc"] != ev["zexc"]:
-            return "seed %d vs 0: %s" % (ev["seed"], ev["exc"] or "succeeds")
-        return "seed %d vs 0: %s" % (ev["seed"], "output differs" if ev["dig"] != ev["zdig"] else "summary differs")
+            return "hash seeds disagree: %s" % (ev["exc"] or "succeeds")
+        return "hash seeds disagree: %s" % ("output differs" if ev["dig"] != ev["zdig"] else "summary differs")
     return "output differs between entry points"
 
 
